@@ -1070,6 +1070,8 @@ def getattr(I, base, attr):
 def _kind(v):
     if isinstance(v, PoolVal):
         return "pool"
+    if type(v).__name__ == "PicklerVal":
+        return "PicklerVal"
     if isinstance(v, Cell):
         if v.kind == "arr":
             return "struct" if isinstance(v.value, SymStruct) else "seq"
@@ -1831,13 +1833,14 @@ def _cumsum(I, x, **kw):
     f = z3.Function(I.namer.fresh("cumsum"), z3.IntSort(), srt)
     n = to_int(x.length)
     k = z3.Int(I.namer.fresh("q_k"))
-    I.assume(z3.Implies(n > 0, f(0) == x.get(0)))
+    I.assume(z3.Implies(n > 0, I.ctx_simplify(n > 0, f(0) == x.get(0))))
     rng0 = z3.And(1 <= k, k < n)
     I.assume(z3.ForAll([k], z3.Implies(rng0, I.ctx_simplify(
         rng0, f(k) == f(k - 1) + x.get(k)))))
     if I.V.log_domain and x.elem == "Real":
         # the same recurrence on exponential images (exp_add instances)
-        I.assume(z3.Implies(n > 0, EXPF(f(0)) == EXPI(I, x.get(0))))
+        I.assume(z3.Implies(n > 0, I.ctx_simplify(
+            n > 0, EXPF(f(0)) == EXPI(I, x.get(0)))))
         rng_ = z3.And(1 <= k, k < n)
         I.assume(z3.ForAll([k], z3.Implies(
             rng_, I.ctx_simplify(
@@ -2792,3 +2795,279 @@ def _spec_rand_u(I, i):
 def _sys_exit(I, code=0):
     I.ghost["exit_code"] = code
     raise E.RaiseEx("SystemExit", I.cur_line)
+
+
+# =====================================================================
+# C11: ghost file system.  fs : path -> Absent | Torn | Complete(version).
+# rename (shutil.move / os.replace) is atomic; open(..., 'wb') truncates
+# (the file is Torn until it is closed); module.dump / torch.save write
+# non-atomically (Torn until completion).  Process kill only (no fsync
+# semantics).
+# =====================================================================
+FileState = z3.Datatype("FileState")
+FileState.declare("Absent")
+FileState.declare("Torn")
+FileState.declare("Complete", ("ver", z3.IntSort()))
+FileState = FileState.create()
+
+
+class PathVal:
+    """a file path: symbolic base + concrete suffix"""
+
+    def __init__(self, base, suffix=""):
+        self.base, self.suffix = base, suffix
+
+    @property
+    def key(self):
+        return (self.base, self.suffix)
+
+    def __repr__(self):
+        return f"<Path {self.base}{self.suffix}>"
+
+
+class PicklerVal:
+    """pickle / dill module object (dump, load)"""
+
+
+def fs_get(I, p):
+    if not isinstance(p, PathVal):
+        raise Unsupported(f"file-system access with a non-path {p!r}")
+    fs = I.ghost.setdefault("fs", {})
+    if p.key not in fs:
+        v = z3.Const(I.namer.fresh(f"fs0[{p.base}{p.suffix}]"), FileState)
+        fs[p.key] = v
+        I.ghost.setdefault("fs0", {})[p.key] = v
+    return fs[p.key]
+
+
+def fs_set(I, p, state):
+    fs_get(I, p)
+    I.ghost["fs"][p.key] = state
+    I.ghost["fs_writes"] = I.ghost.get("fs_writes", 0) + 1
+
+
+_old_binop = binop
+
+
+def binop(I, op, a, b):      # noqa: F811  (path concatenation)
+    if isinstance(op, ast.Add) and isinstance(a, PathVal) and \
+            isinstance(b, str):
+        return PathVal(a.base, a.suffix + b)
+    return _old_binop(I, op, a, b)
+
+
+_old_join = LIB["os.path.join"].fn
+
+
+@lib("os.path.join")
+def _os_path_join2(I, *parts):
+    if parts and isinstance(parts[-1], PathVal):
+        head = "/".join(str(p.what if isinstance(p, Opaque) else p)
+                        for p in parts[:-1])
+        last = parts[-1]
+        return PathVal(f"{head}/{last.base}", last.suffix)
+    return _old_join(I, *parts)
+
+
+@lib("os.path.exists")
+def _os_path_exists(I, p):
+    return fs_get(I, p) != FileState.Absent
+
+
+@lib("shutil.move", "os.replace", "os.rename")
+def _shutil_move(I, a, b):
+    sa = fs_get(I, a)
+    if not I.spec:
+        if I.try_depth > 0 or True:
+            # moving a missing file raises FileNotFoundError
+            if I.fork(sa == FileState.Absent):
+                raise E.RaiseEx("FileNotFoundError", I.cur_line)
+    fs_get(I, b)
+    fs_set(I, b, sa)
+    fs_set(I, a, FileState.Absent)
+    return b
+
+
+@lib("builtins.open")
+def _open(I, p, mode="r", *a, **k):
+    st = fs_get(I, p)
+    if "w" in mode:
+        fs_set(I, p, FileState.Torn)         # truncated, being written
+        return FileHandle(p, mode)
+    if I.fork(st == FileState.Absent):
+        raise E.RaiseEx("FileNotFoundError", I.cur_line)
+    return FileHandle(p, mode)
+
+
+def _fh_close(self, I):
+    if "w" in self.mode:
+        fs_set(I, self.path, FileState.Complete(I.V.new_version(I)))
+
+
+FileHandle.close = _fh_close
+
+
+def _pickler_dump(I, b, data, fh):
+    # non-atomic: the target stays Torn until the handle is closed
+    if not isinstance(fh, FileHandle):
+        raise Unsupported("dump into a non-file")
+    I.ghost["dumped"] = data
+    return None
+
+
+def _pickler_load(I, b, fh):
+    st = fs_get(I, fh.path)
+    if I.fork(st == FileState.Torn):
+        raise E.RaiseEx("UnpicklingError", I.cur_line)
+    return LoadedVal(FileState.ver(st))
+
+
+class LoadedVal:
+    """object unpickled from a Complete file: carries the version"""
+
+    def __init__(self, ver):
+        self.ver = ver
+
+
+METHODS[("PicklerVal", "dump")] = lambda I, b: E.LibFunc(
+    "pickle.dump", lambda I2, data, fh, *a, **k: _pickler_dump(I2, b, data,
+                                                               fh))
+METHODS[("PicklerVal", "load")] = lambda I, b: E.LibFunc(
+    "pickle.load", lambda I2, fh, *a, **k: _pickler_load(I2, b, fh))
+LIB["pickle.load"] = E.LibFunc("pickle.load",
+                               lambda I, fh, *a, **k: _pickler_load(I, None,
+                                                                    fh))
+LIB["pickle.dump"] = E.LibFunc("pickle.dump",
+                               lambda I, d, fh, *a, **k: _pickler_dump(
+                                   I, None, d, fh))
+CONSTS["pickle"] = PicklerVal()
+
+
+@lib("torch.save")
+def _torch_save(I, obj, p, *a, **k):
+    """in-place, non-atomic write: the target is Torn while it runs; the
+    crash point inside the write is exposed to the statement hook through
+    the ghost flag 'mid_write'"""
+    fs_set(I, p, FileState.Torn)
+    hook = I.V.mid_write_hook
+    if hook is not None and len(I.func_stack) == 1:
+        hook(I, p)
+    fs_set(I, p, FileState.Complete(I.V.new_version(I)))
+
+
+@lib("torch.load")
+def _torch_load(I, p, *a, **k):
+    st = fs_get(I, p)
+    if I.fork(st == FileState.Absent):
+        raise E.RaiseEx("FileNotFoundError", I.cur_line)
+    if I.fork(st == FileState.Torn):
+        raise E.RaiseEx("RuntimeError", I.cur_line)    # or EOFError/OSError
+    return LoadedVal(FileState.ver(st))
+
+
+def _fs_arg(I, p):
+    return fs_get(I, p)
+
+
+@lib("spec.fs_absent")
+def _spec_fs_absent(I, p):
+    return _fs_arg(I, p) == FileState.Absent
+
+
+@lib("spec.fs_torn")
+def _spec_fs_torn(I, p):
+    return _fs_arg(I, p) == FileState.Torn
+
+
+@lib("spec.fs_complete")
+def _spec_fs_complete(I, p):
+    return FileState.is_Complete(_fs_arg(I, p))
+
+
+@lib("spec.fs_version")
+def _spec_fs_version(I, p):
+    return FileState.ver(_fs_arg(I, p))
+
+
+def _fs0(I, p):
+    fs_get(I, p)
+    return I.ghost["fs0"][p.key]
+
+
+@lib("spec.fs0_absent")
+def _spec_fs0_absent(I, p):
+    return _fs0(I, p) == FileState.Absent
+
+
+@lib("spec.fs0_complete")
+def _spec_fs0_complete(I, p):
+    return FileState.is_Complete(_fs0(I, p))
+
+
+@lib("spec.fs0_version")
+def _spec_fs0_version(I, p):
+    return FileState.ver(_fs0(I, p))
+
+
+@lib("spec.fs0_torn")
+def _spec_fs0_torn(I, p):
+    return _fs0(I, p) == FileState.Torn
+
+
+@lib("spec.NEW")
+def _spec_new(I):
+    return I.V.new_version(I)
+
+
+@lib("spec.loaded_version")
+def _spec_loaded_version(I, v):
+    if isinstance(v, LoadedVal):
+        return v.ver
+    if isinstance(v, Obj) and "ghost_version" in v.attrs:
+        return v.attrs["ghost_version"]
+    raise SpecError("loaded_version of a value that was not loaded")
+
+
+@lib("spec.PREV")
+def _spec_prev(I):
+    if "prev_version" not in I.ghost:
+        I.ghost["prev_version"] = I.fresh_const("PREVVER", z3.IntSort())
+    return I.ghost["prev_version"]
+
+
+@lib("spec.resume_rt_error")
+def _spec_resume_rt_error(I, p):
+    d = I.ghost.setdefault("rt_err", {})
+    if p.key not in d:
+        d[p.key] = z3.Bool(I.namer.fresh(f"rt_err[{p.base}{p.suffix}]"))
+    return d[p.key]
+
+
+class OpaqueCallable:
+    def __init__(self, what):
+        self.what = what
+
+
+_old_getattr_fn = getattr
+
+
+def getattr(I, base, attr):          # noqa: F811
+    if isinstance(base, Opaque):
+        # an uninspected foreign value: attribute access / method calls
+        # yield further uninspected values (no effect on modelled state)
+        return Opaque(f"{base.what}.{attr}")
+    if isinstance(base, LoadedVal) and attr == "ghost_version":
+        return base.ver
+    return _old_getattr_fn(I, base, attr)
+
+
+_old_compare = compare
+
+
+def compare(I, op, a, b):            # noqa: F811
+    if (isinstance(a, Opaque) or isinstance(b, Opaque)) and not isinstance(
+            op, (ast.Is, ast.IsNot)):
+        if a is None or b is None:
+            return _old_compare(I, op, a, b)
+        return I.fresh_const("opaque_cmp", z3.BoolSort())
+    return _old_compare(I, op, a, b)
